@@ -91,7 +91,9 @@ func GenTyped(t *rapid.T) *TypedCase {
 		ev := TypedEvent{Ver: rapid.SampledFrom([]int{1, 1, 2, 2, 3, 0}).Draw(t, "ver"), A: rapid.IntRange(-1000, 1000).Draw(t, "a"),
 			S: rapid.OneOf(rapid.SampledFrom([]string{"", "x", "ü", "<&>"}), rapid.StringN(0, 5, 12)).Draw(t, "s"), B: rapid.Bool().Draw(t, "b")}
 		if rapid.IntRange(0, 5).Draw(t, "bad") == 0 {
-			ev.Bad = rapid.SampledFrom([]string{`{"a":"not-a-number"}`, `[]`, `"str"`, `{"a":1.5}`, `{"s":5}`, `null`, `{"b":"x"}`}).Draw(t, "badtext")
+			ev.Bad = rapid.SampledFrom([]string{`{"a":"not-a-number"}`, `[]`, `"str"`, `{"a":1.5}`, `{"s":5}`, `null`, `{"b":"x"}`,
+				// a complete JSON value followed by more bytes is not a JSON document
+				`{"a":1,"s":"x"} trailing`, `{"a":1}{"a":2}`, `{"a":1}]`, "{\"a\":2}\n{\"a\":3}", `{"a":4} ,`, `{"a":1`}).Draw(t, "badtext")
 		}
 		if c.Only12 && (ev.A == 12 || ev.A == 13) {
 			// with the chain ending at V2 a rejected V2 document would be the
